@@ -152,6 +152,12 @@ impl Scaled {
         let (value_str, unit_str) = s.split_at(s.len() - 2);
         let unit = ScaledUnit::parse(unit_str)
             .ok_or_else(|| format!("invalid unit {unit_str:?} in dimension {s:?}"))?;
+        // The sign applies to the whole number, not only to its integer part:
+        // "-0.5pt" is minus one half, "-1.5pt" is minus (one and a half).
+        let (neg, value_str) = match value_str.strip_prefix('-') {
+            Some(value_str) => (true, value_str),
+            None => (false, value_str),
+        };
         let (int_str, frac_str) = match value_str.find('.') {
             Some(pos) => (&value_str[..pos], &value_str[pos + 1..]),
             None => (value_str, ""),
@@ -167,6 +173,7 @@ impl Scaled {
         }
         let fractional_part = Scaled::from_decimal_digits(&frac_digits);
         Scaled::new(integer_part, fractional_part, unit)
+            .map(|sc| if neg { -sc } else { sc })
             .map_err(|_| format!("dimension {s:?} is out of range"))
     }
 
